@@ -93,10 +93,15 @@ let check_tables ip sp : string option =
   !bad
 
 let mk_cfg (v : string) (o : string) : config =
+  (* v<ms>[,<field>]*: CA kind (rsa|ec|ed|cv: only matters to the harness, signer = ca abstraction),
+     skip = SkipTLSVerify(true), h2 = SetH2Config(all hosts): options the model carries but, by
+     C06_options_do_not_enter_the_decision, never looks at *)
+  let fields = String.split_on_char ',' (String.sub v 1 (String.length v - 1)) in
   { cfg_ca = ca_id; cfg_key = key_id;
     cfg_org = chars_of_hex (String.sub o 1 (String.length o - 1));
-    (* v<ms>[,<ca-kind>]: the CA kind only matters to the harness (signer = ca abstraction) *)
-    cfg_validity = z_of_dec (List.hd (String.split_on_char ',' (String.sub v 1 (String.length v - 1)))) }
+    cfg_validity = z_of_dec (List.hd fields);
+    cfg_skip_verify = List.mem "skip" fields;
+    cfg_h2 = List.mem "h2" fields }
 
 let zle a b = Z.leb a b
 let zmax a b = if Z.leb a b then b else a
